@@ -11,11 +11,14 @@
 (* Route kinds: a pull route (consumers: pull HTTP, worker gRPC, the       *)
 (* worker server called in-process with the returned slices mutated) or a  *)
 (* deliver route (push dispatcher -> HTTP deliverer -> target).            *)
+(* Besides the consumers the operator acts on the message: cancel, resume, *)
+(* requeue (by id and by filter), requeue from the DLQ; consumers extend   *)
+(* leases and use the single and the batch form of ack / nack / dead.      *)
 (***************************************************************************)
 EXTENDS Fidelity
 
 CONSTANTS
-  Srcs, PCs, HCs, Bes, ModesC, Vias,   \* input dimensions to enumerate
+  Srcs, PCs, HCs, Bes, ModesC, Vias, Shapes,   \* input dimensions to enumerate (Shapes: publish request shapes)
   Star,        \* TRUE: vary one content dimension at a time around (CentrePC, CentreHC)
   CentrePC, CentreHC,
   FreeRoute,   \* TRUE: lim / fwd of the route are free (else minimal)
@@ -26,7 +29,7 @@ CONSTANTS
   UseTour      \* TRUE: follow the fixed tour (one long path through every channel) instead of all paths
 
 VARIABLES in,     \* the input
-          st,     \* "new" | "refused" | "queued" | "leased" | "dead" | "delivered"
+          st,     \* "new" | "refused" | "queued" | "leased" | "dead" | "canceled" | "delivered"
           ttl,    \* lease kind of a leased message: "long" | "short" | "-"
           store,  \* what the store holds: Nothing or [pl, hd]
           obs,    \* the last observation: None or [ch, pl, hd]
@@ -45,42 +48,58 @@ NeedLim(pc, hc) == pc \in LimPCs \/ hc \in LimHCs
 NeedFwd(hc)     == hc \in CopyHCs
 
 Inputs ==
-  {i \in [src : Srcs, pc : PCs, hc : HCs, be : Bes, mode : ModesC, via : Vias \cup {"api"}, lim : BOOLEAN, fwd : BOOLEAN] :
+  {i \in [src : Srcs, pc : PCs, hc : HCs, be : Bes, mode : ModesC, via : Vias \cup {"api"}, lim : BOOLEAN, fwd : BOOLEAN,
+          pb : Shapes \cup {"single"}] :
      /\ ValidInput(i)
      /\ ~FreeRoute => (i.lim = NeedLim(i.pc, i.hc) /\ i.fwd = NeedFwd(i.hc))
      /\ i.fwd => i.src = "ingress"
-     /\ Star => \/ (i.hc = CentreHC /\ (i.via # "wire" \/ i.pc \in {"empty", "all256", "max", "maxp1", "dmax", "dmaxp1"}))
-                \/ i.pc = CentrePC}
+     /\ Star => \/ /\ i.hc = CentreHC /\ i.pb = "single"
+                   /\ (i.via \in {"handler", "api"} \/ i.pc \in FramePCs)
+                \/ /\ i.pc = CentrePC
+                   /\ (i.via \in {"handler", "wire", "api"} \/ i.hc \in {"none", "hmax", "hmaxp1"})
+                   /\ (i.pb = "single" \/ i.hc \in {"none", "plain"})}
 
 (* ---------------------------------------------------------------- operations *)
 OpSubmit(i) == [op |-> "Submit", src |-> i.src, pc |-> i.pc, hc |-> i.hc, be |-> i.be, mode |-> i.mode, via |-> i.via,
-                lim |-> i.lim, fwd |-> i.fwd, recv |-> Fields(i.hc),
+                lim |-> i.lim, fwd |-> i.fwd, pb |-> i.pb, recv |-> Fields(i.hc),
                 auth |-> IF i.fwd THEN AuthFields(i.hc) ELSE <<>>]
 \* b: how the store is asked - "one" (batch 1), "alone" (batch > 1, only this message is ready), "pair" (batch > 1 and a
 \* companion message of the harness is ready on the same route): three different read paths of the SQLite store
 OpDeq(ch, t, b)  == [op |-> "Deq", ch |-> ch, ttl |-> t, b |-> b]
-OpLease(k, ch)   == [op |-> "LeaseOp", kind |-> k, ch |-> ch]
+OpLease(k, ch, f) == [op |-> "LeaseOp", kind |-> k, ch |-> ch, form |-> f]   \* form: lease_id | lease_ids
+OpExtend(ch)     == [op |-> "Extend", ch |-> ch]
 OpExpire         == [op |-> "Expire"]
-OpRequeue(o, b)  == [op |-> "Requeue", outcome |-> o, b |-> b]   \* outcome: first attempt after the requeue (deliver routes), "-" on pull routes
+OpRequeue(o, b)  == [op |-> "Requeue", outcome |-> o, b |-> b]   \* /dlq/requeue; outcome: first attempt after it (deliver routes), "-" on pull routes
 OpPush(o, b)     == [op |-> "Push", outcome |-> o, b |-> b]     \* the dispatcher always asks for a batch: "alone" | "pair"
 OpRestart        == [op |-> "Restart"]
 OpList(w)        == [op |-> "List", which |-> w]
+OpCancel(f)      == [op |-> "Cancel", form |-> f]       \* operator: /messages/cancel | cancel_by_filter
+OpResume(f)      == [op |-> "Resume", form |-> f]       \* operator: /messages/resume | resume_by_filter
+OpRequeueMsg(f)  == [op |-> "RequeueMsg", form |-> f]   \* operator: /messages/requeue | requeue_by_filter (dead or canceled)
 
 \* The tour: one long path that takes the message through every channel,
-\* redelivery by nack and by lease expiry, the DLQ and back, and restarts.
+\* redelivery by nack and by lease expiry, the DLQ and back, operator cancel /
+\* resume / requeue in both forms, and restarts.
 PullTourAll ==
   << OpList("messages"),
-     OpDeq("http", "long", "one"),  OpLease("nack", "http"),
-     OpDeq("grpc", "long", "pair"),  OpRestart, OpLease("nack", "grpc"),
-     OpDeq("inproc", "long", "alone"), OpLease("nack", "http"),
+     OpDeq("http", "long", "one"),  OpLease("nack", "http", "single"),
+     OpDeq("grpc", "long", "pair"),  OpRestart, OpLease("nack", "grpc", "batch"),
+     OpCancel("id"), OpList("messages"), OpResume("id"),
+     OpDeq("inproc", "long", "alone"), OpExtend("http"), OpLease("nack", "http", "batch"),
      OpDeq("http", "short", "pair"), OpExpire,
-     OpDeq("grpc", "long", "one"),  OpLease("dead", "grpc"), OpList("dlq"), OpRestart, OpRequeue("-", "-"),
-     OpDeq("inproc", "long", "pair"), OpLease("nack", "grpc"),
-     OpDeq("http", "long", "alone"),  OpLease("ack", "http"), OpList("messages") >>
+     OpCancel("filter"), OpRestart, OpRequeueMsg("filter"),
+     OpDeq("grpc", "long", "one"),  OpExtend("grpc"), OpLease("dead", "grpc", "single"), OpList("dlq"), OpRestart, OpRequeue("-", "-"),
+     OpDeq("inproc", "long", "pair"), OpLease("dead", "http", "batch"), OpRequeueMsg("id"),
+     OpDeq("http", "long", "alone"), OpCancel("id"), OpResume("filter"),
+     OpDeq("grpc", "long", "alone"), OpLease("ack", "http", "single"), OpList("messages") >>
 PushTourAll ==
   << OpList("messages"),
-     OpPush("retry", "alone"), OpRestart, OpPush("retry", "pair"), OpPush("fatal", "alone"), OpList("dlq"), OpRestart,
-     OpRequeue("retry", "pair"), OpPush("ok", "alone"), OpList("messages") >>
+     OpPush("retry", "alone"), OpRestart, OpCancel("id"), OpResume("id"),
+     OpPush("retry", "pair"), OpCancel("filter"), OpRequeueMsg("filter"),
+     OpPush("fatal", "alone"), OpList("dlq"), OpRestart, OpRequeue("retry", "pair"),
+     OpPush("fatal", "alone"), OpRequeueMsg("id"),
+     OpCancel("id"), OpResume("filter"),
+     OpPush("ok", "alone"), OpList("messages") >>
 Tour(i) ==
   SelectSeq(IF i.mode = "pull" THEN PullTourAll ELSE PushTourAll, LAMBDA o : o.op # "Restart" \/ i.be = "sqlite")
 
@@ -115,13 +134,20 @@ Deq ==
     /\ UNCHANGED <<store, na, rs>>
 
 LeaseOp ==
-  \E k \in {"nack", "dead", "ack"}, ch \in {"http", "grpc"} :
-    /\ st = "leased" /\ ttl = "long" /\ Go(OpLease(k, ch))
+  \E k \in {"nack", "dead", "ack"}, ch \in {"http", "grpc"}, f \in {"single", "batch"} :
+    /\ st = "leased" /\ ttl = "long" /\ Go(OpLease(k, ch, f))
     /\ k = "ack" => nd >= MinEnd
     /\ st' = (CASE k = "nack" -> "queued" [] k = "dead" -> "dead" [] k = "ack" -> "delivered")
     /\ ttl' = "-" /\ obs' = None
-    /\ Step(OpLease(k, ch))
+    /\ Step(OpLease(k, ch, f))
     /\ UNCHANGED <<store, nd, na, rs>>
+
+Extend ==
+  \E ch \in {"http", "grpc"} :
+    /\ st = "leased" /\ ttl = "long" /\ Go(OpExtend(ch))
+    /\ obs' = None
+    /\ Step(OpExtend(ch))
+    /\ UNCHANGED <<st, ttl, store, nd, na, rs>>
 
 Expire ==
   /\ st = "leased" /\ ttl = "short" /\ Go(OpExpire)
@@ -140,7 +166,7 @@ Push ==
     /\ Step(OpPush(o, b))
     /\ UNCHANGED <<ttl, store, nd, rs>>
 
-\* operator requeue from the DLQ; on a deliver route the dispatcher sends it at once
+\* operator requeue from the DLQ; on a deliver route the next attempt follows at once
 Requeue ==
   \/ /\ in.mode = "pull" /\ st = "dead" /\ Go(OpRequeue("-", "-"))
      /\ st' = "queued" /\ obs' = None
@@ -152,6 +178,30 @@ Requeue ==
        /\ obs' = See("push")
        /\ Step(OpRequeue(o, b))
        /\ UNCHANGED <<ttl, store, nd, rs>>
+
+\* operator: cancel a queued, leased or dead message (a lease is dropped), by id or by filter
+Cancel ==
+  \E f \in {"id", "filter"} :
+    /\ (st \in {"queued", "dead"} \/ (st = "leased" /\ ttl = "long")) /\ Go(OpCancel(f))
+    /\ st' = "canceled" /\ ttl' = "-" /\ obs' = None
+    /\ Step(OpCancel(f))
+    /\ UNCHANGED <<store, nd, na, rs>>
+
+\* operator: a canceled message becomes deliverable again
+Resume ==
+  \E f \in {"id", "filter"} :
+    /\ st = "canceled" /\ Go(OpResume(f))
+    /\ st' = "queued" /\ obs' = None
+    /\ Step(OpResume(f))
+    /\ UNCHANGED <<ttl, store, nd, na, rs>>
+
+\* operator: /messages/requeue takes dead and canceled messages
+RequeueMsg ==
+  \E f \in {"id", "filter"} :
+    /\ st \in {"dead", "canceled"} /\ Go(OpRequeueMsg(f))
+    /\ st' = "queued" /\ obs' = None
+    /\ Step(OpRequeueMsg(f))
+    /\ UNCHANGED <<ttl, store, nd, na, rs>>
 
 \* stop the instance, open the same database again (SQLite); a valid long lease survives
 Restart ==
@@ -168,13 +218,13 @@ List ==
     /\ Step(OpList(w))
     /\ UNCHANGED <<st, ttl, store, nd, na, rs>>
 
-Next == Submit \/ Deq \/ LeaseOp \/ Expire \/ Push \/ Requeue \/ Restart \/ List
+Next == Submit \/ Deq \/ LeaseOp \/ Extend \/ Expire \/ Push \/ Requeue \/ Cancel \/ Resume \/ RequeueMsg \/ Restart \/ List
 
 Spec == Init /\ [][Next]_vars
 
 (* ---------------------------------------------------------------- properties *)
 TypeOK ==
-  /\ st \in {"new", "refused", "queued", "leased", "dead", "delivered"}
+  /\ st \in {"new", "refused", "queued", "leased", "dead", "canceled", "delivered"}
   /\ ttl \in {"long", "short", "-"}
   /\ (st = "leased") = (ttl # "-")
   /\ nd \in 0..MaxDeq /\ na \in 0..MaxAtt /\ rs \in 0..MaxRs
